@@ -6,6 +6,7 @@ import (
 	"os"
 	"path/filepath"
 	"strings"
+	"sync/atomic"
 
 	"github.com/apparentlymart/go-versions/versions"
 	"github.com/hashicorp/go-slug/sourceaddrs"
@@ -59,6 +60,8 @@ type mObs struct {
 	Panic           string `json:"panic"`
 }
 
+var bundleSeq int64
+
 func inside(root, p string) bool {
 	rel, err := filepath.Rel(root, p)
 	return err == nil && rel != ".." && !strings.HasPrefix(rel, "../")
@@ -111,6 +114,16 @@ func runBundle(base string, c *mCase) (obs *mObs) {
 		b = []byte(c.Raw)
 	}
 	os.WriteFile(filepath.Join(root, "terraform-sources.json"), b, 0644)
+	// every other bundle is opened by way of a symbolic link to its directory: all paths below are then spelled through
+	// the link, as the bundle itself spells them
+	if atomic.AddInt64(&bundleSeq, 1)%2 == 0 {
+		if ld, lerr := os.MkdirTemp(base, "bl-"); lerr == nil {
+			defer os.RemoveAll(ld)
+			if os.Symlink(root, filepath.Join(ld, "b")) == nil {
+				root = filepath.Join(ld, "b")
+			}
+		}
+	}
 	bundle, err := sourcebundle.OpenDir(root)
 	if err != nil {
 		obs.OpenErr = err.Error()
